@@ -219,6 +219,22 @@ CLAIMED = {
         "exact; text(normalize=True) only checked for ordering; an empty *list* vocabulary (no dimensionality) is unclaimed.",
         "DESIGN.md section 5, C20",
     ),
+    "C13": (
+        "Coq/MathComp proofs (transform = similarity-weighted sum of targets; orthonormal sources map exactly; an exact "
+        "solver solution maps every source row; key-set laws) about a hand-written executable model of transform_to / "
+        "translate; matrices, key sets, warnings and translated pointers compared with the implementation in Coq",
+        "Theorems for every commutative ring, all dimensionalities and key sets: T x = sum over the used keys of <s_k, x> t_k; "
+        "if the used source entries are orthonormal T s_j = t_j; any exact solution X of from.X = to (the least-squares "
+        "solver's post-condition for independent sources) satisfies X^T s_j = t_j; only requested keys held by both "
+        "vocabularies are used; a warning is issued iff populate is unspecified and keys are missing; the target is unchanged "
+        "unless populate is True, in which case exactly the missing requested keys are appended. The source is never "
+        "changed, reinterpret keeps vector / follows or keeps the algebra, translated pointers belong to the target and "
+        "create_subset is an independent copy: checked by the tie on every configuration (3 algebras x source kinds x key "
+        "overlaps x strict x populate x solver x requested). Two defects found and repaired.",
+        "Trusted: Coq kernel + vm_compute; Model/Translate.v; with populate=True the new target vectors are read back from "
+        "the implementation; np.linalg.lstsq observed through its results; dynamic-node translate is covered by C01.",
+        "DESIGN.md section 5, C13",
+    ),
 }
 
 NOT_YET = "not yet built in this revision of /verif (design in DESIGN.md section 5); no check is claimed"
